@@ -359,6 +359,28 @@ def run(world, rep, tier, only=None):
         rep.ob("C15.k", site(cei, "a failed value write is undone before the error is returned#%d" % i), bool(undo) and not bad,
                "from the failing side of the status test after ext2fs_file_write() every path to a return passes ext2fs_punch(): %s" % bad)
 
+    # ------------------------------------------------------------------ C15.l a name that does not fit its length byte is refused
+    # e_name_len is one byte.  A name part of 300 characters would be written with length 44 and read back as another
+    # attribute; the array update refuses a name part longer than 255 before anything is changed.
+    xau = ea["xattr_array_update"]
+    nl = [xau.block_end(b) for b in xau.blocks if xau.literal(b) and T.const(T.strip(xau.literal(b)[0]).get("r") if isinstance(T.strip(xau.literal(b)[0]), dict) else None) in (255, 256)
+          and depends_on(xau, xau.literal(b)[0], lambda y: isinstance(y, dict) and y.get("k") == "c" and y.get("fn") == "strlen")]
+    rep.ob("C15.l", site(xau, "name part longer than 255 bytes refused"), bool(nl),
+           "a comparison of strlen(name part) with 255 leads out of xattr_array_update(): %d test(s)" % len(nl))
+
+    # ------------------------------------------------------------------ C15.m a value given as a file is the whole file
+    # debugfs `ea_set -f file` reads the value with one fread().  Its limit is the longest value there can be, not the
+    # block size of the file system: a 3000-byte file on a 1k file system was stored as 1024 bytes without a word.
+    dsx = prog.fn("do_set_xattr", "debugfs/xattrs.c")
+    frs = [n for n in dsx.events("S") if any(cc.get("fn") == "fread" for cc in T.calls(n.ev.get("rhs") or {}))] + calls_to(dsx, "fread")
+    rep.floor("C15.m fread of the value file in do_set_xattr", len(frs), 1)
+    for i, n in enumerate(frs):
+        cc = [c_ for c_ in ([n.ev["x"]] if n.ev["e"] == "C" else T.calls(n.ev.get("rhs") or {})) if c_.get("fn") == "fread"][0]
+        lim = cc["a"][2] if len(cc.get("a", [])) > 2 else None
+        by_block = isinstance(lim, dict) and ("blocksize" in T.field_names(lim) or depends_on(dsx, lim, lambda y: "blocksize" in T.field_names(y)))
+        rep.ob("C15.m", site(dsx, "value file not cut at the block size#%d" % i), not by_block,
+               "fread(buf, 1, %s, fp): the limit does not derive from the block size" % T.pp(lim or {})[:30])
+
     # ------------------------------------------------------------------ C15.h a command that could not do its work says so
     # debugfs ea_set / ea_rm / ea_get end silently when all went well.  When a library call failed (the handle could
     # not be opened, the attributes not read, the value not stored) silence would read as success: on the failing
